@@ -43,23 +43,31 @@ int_t sp_ienv(int_t i) { switch (i) { case 1: return 1; case 2: return 1; case 3
 #define TAIL 1
 int main(int argc, char **argv) {
     FILE *in = fopen(argv[1], "r"), *out = fopen(argv[2], "w"); char tok[64];
-    char *raw = 0, *work = 0; int_t *iw[64]; elem_t *dw[64];
+    /* one arena for every case: a stale stack descriptor of an earlier case still points into it, which is what lets the
+       harness recognise blocks that a call WITHOUT caller workspace carved out of an earlier call's buffer */
+    const long CAP = 1 << 20; char *raw = malloc(CAP + 96), *arena = (char *)(((unsigned long)raw + 15) & ~15UL), *work = arena;
+    int_t *iw[64] = {0}; elem_t *dw[64] = {0}; int sysmode = 0;
     while (fscanf(in, "%63s", tok) == 1) {
         if (!strcmp(tok, "case")) { char id[64]; long ms, rb, b8, lw; fscanf(in, "%63s %ld %ld %ld %ld", id, &ms, &rb, &b8, &lw);
-            g_maxsuper = ms; g_rowblk = rb; free(raw); raw = malloc(lw + 96); work = (char *)(((unsigned long)raw + 15) & ~15UL) + b8;
-            memset(iw, 0, sizeof iw); memset(dw, 0, sizeof dw);
-            PP(gstrf_SetupSpace)(work, lw); fprintf(out, "case %s\n", id); }
+            g_maxsuper = ms; g_rowblk = rb;
+            for (int k = 0; k < 64; k++) { if (sysmode && iw[k] && dw[k]) PP(gstrf_WorkFree)(iw[k], dw[k], 0); iw[k] = 0; dw[k] = 0; }
+            sysmode = (lw == 0); work = arena + b8;
+            if (lw > CAP - 16) return 4;
+            PP(gstrf_SetupSpace)(lw > 0 ? work : 0, lw); fprintf(out, "case %s\n", id); }
         else if (!strcmp(tok, "mh") || !strcmp(tok, "mt")) { long b; fscanf(in, "%ld", &b);
             char *p = U(user_malloc)(b, tok[1] == 'h' ? HEAD : TAIL);
             if (p) fprintf(out, "%s %ld\n", tok, (long)(p - work)); else fprintf(out, "%s NULL\n", tok); }
         else if (!strcmp(tok, "fh") || !strcmp(tok, "ft")) { long b; fscanf(in, "%ld", &b); U(user_free)(b, tok[1] == 'h' ? HEAD : TAIL); fprintf(out, "%s\n", tok); }
         else if (!strcmp(tok, "wi")) { long k, n, w; fscanf(in, "%ld %ld %ld", &k, &n, &w);
+            iw[k] = 0; dw[k] = 0;
             int_t rc = PP(gstrf_WorkInit)(n, w, &iw[k], &dw[k]);
+            int inarena = iw[k] && (char *)iw[k] >= raw && (char *)iw[k] < raw + CAP + 96;
+            if (iw[k] && dw[k] && !inarena && rc == 0) { fprintf(out, "wi 0 sys sys\n"); continue; }
             fprintf(out, "wi %ld", (long)rc);
             if (iw[k]) fprintf(out, " %ld", (long)((char *)iw[k] - work)); else fprintf(out, " NULL");
             if (iw[k] && dw[k]) fprintf(out, " %ld", (long)((char *)dw[k] - work)); else fprintf(out, " NULL");
             fputc('\n', out); }
-        else if (!strcmp(tok, "wf")) { long k; fscanf(in, "%ld", &k); PP(gstrf_WorkFree)(iw[k], dw[k], 0); fprintf(out, "wf\n"); }
+        else if (!strcmp(tok, "wf")) { long k; fscanf(in, "%ld", &k); PP(gstrf_WorkFree)(iw[k], dw[k], 0); iw[k] = 0; dw[k] = 0; fprintf(out, "wf\n"); }
         else if (!strcmp(tok, "probe")) { char *p1 = U(user_malloc)(0, HEAD), *p2 = U(user_malloc)(0, TAIL);
             if (p1 && p2) fprintf(out, "probe %ld %ld\n", (long)(p1 - work), (long)(p2 - work)); else fprintf(out, "probe full\n"); }
         else { fprintf(stderr, "unknown op %s\n", tok); return 3; }
